@@ -226,7 +226,7 @@ func cmdCheck(args []string) int {
 		have[r.Name] = true
 	}
 	for n := range inLedger {
-		if !have[n] {
+		if !have[n] && !strings.HasSuffix(n, "#none-retained") {
 			missing++
 		}
 	}
@@ -488,6 +488,22 @@ func checkShard(propV, tierV, shard string) *checkAcc {
 			to = h.Timeout
 		}
 		solveAll(res, to, true)
+		// "no view of the borrowed buffer is retained" is one claim of a harness that declares
+		// vBorrowed: its obligations exist only where a store could retain a view, so a change
+		// that introduces such a store introduces a NEW obligation. The claim itself is recorded
+		// in the ledger under one aggregate name.
+		borrowAgg := n + "/borrowed#none-retained"
+		if len(res.engine.borrowed) > 0 {
+			allOK := true
+			for i, o := range res.Obls {
+				if strings.HasPrefix(o.Kind, "borrow") && res.Verdicts[i].Status != "unsat" {
+					allOK = false
+				}
+			}
+			if allOK {
+				acc.NewLedger = append(acc.NewLedger, borrowAgg)
+			}
+		}
 		for i, o := range res.Obls {
 			v := res.Verdicts[i]
 			full := n + "/" + o.Name
@@ -540,7 +556,7 @@ func checkShard(propV, tierV, shard string) *checkAcc {
 				acc.Violations++
 				fmt.Printf("VIOLATION property=%s replay=%s\n", *prop, rr.Path)
 				fmt.Printf("  obligation %s (%s) at %s fails; counterexample reproduced on the real code\n", full, o.Desc, rep.Pos)
-			case inLedger[full]:
+			case inLedger[full] || (strings.HasPrefix(o.Kind, "borrow") && inLedger[borrowAgg]):
 				acc.Violations++
 				path := writeNoInputReplay(*prop, full, o, v, rr)
 				fmt.Printf("VIOLATION property=%s replay=%s no-failing-input-found\n", *prop, path)
